@@ -77,6 +77,7 @@ type Ctx struct {
 	beat      int64 // unix nanos of last Begin
 	inCase    int32
 	HangLimit time.Duration
+	CPULimit  float64 // CPU seconds one case may consume before the watchdog ends the worker
 }
 
 const maxSigs = 400000
@@ -97,7 +98,7 @@ func SeedFor(seed int64, label string, n int) int64 {
 func NewCtx(prop, tier string, seed int64, shard, nshards int, workDir, repo string) *Ctx {
 	c := &Ctx{Prop: prop, Tier: tier, Seed: seed, Shard: shard, NShards: nshards, WorkDir: workDir, Repo: repo,
 		counters: map[string]int64{}, sets: map[string]map[string]int64{}, sigs: map[uint64]struct{}{},
-		viol: map[string]*Violation{}, HangLimit: 45 * time.Second}
+		viol: map[string]*Violation{}, HangLimit: 15 * time.Minute}
 	c.Rng = rand.New(rand.NewSource(SeedFor(seed, prop, shard)))
 	if workDir != "" {
 		p := fmt.Sprintf("%s/slot%d", workDir, shard)
@@ -308,17 +309,40 @@ func (c *Ctx) Finish() *Summary {
 // NSigs returns the number of distinct signatures so far.
 func (c *Ctx) NSigs() int { return len(c.sigs) }
 
-// StartWatchdog exits the process (code 3, goroutine dump on stderr) when a single case runs longer than HangLimit.
+// CPUSeconds returns the CPU time consumed by this process so far.
+func CPUSeconds() float64 {
+	var ru syscall.Rusage
+	if syscall.Getrusage(syscall.RUSAGE_SELF, &ru) != nil {
+		return 0
+	}
+	return float64(ru.Utime.Sec+ru.Stime.Sec) + float64(ru.Utime.Usec+ru.Stime.Usec)/1e6
+}
+
+// StartWatchdog exits the process (code 3, goroutine dump on stderr) when a single case has consumed more than
+// CPULimit seconds of CPU time (insensitive to machine load), or - as a generous backup only - has been running for
+// longer than HangLimit of wall time. The driver then replays that case alone and decides on its CPU time.
 func (c *Ctx) StartWatchdog() {
+	if c.CPULimit == 0 {
+		c.CPULimit = 100
+	}
 	go func() {
+		var last int64
+		var cpu0 float64
+		var wall0 time.Time
 		for {
 			time.Sleep(500 * time.Millisecond)
 			if atomic.LoadInt32(&c.inCase) == 0 {
+				last = 0
 				continue
 			}
 			b := atomic.LoadInt64(&c.beat)
-			if b != 0 && time.Since(time.Unix(0, b)) > c.HangLimit {
-				fmt.Fprintf(os.Stderr, "WATCHDOG: case running for more than %v\n", c.HangLimit)
+			if b != last {
+				last, cpu0, wall0 = b, CPUSeconds(), time.Now()
+				continue
+			}
+			used := CPUSeconds() - cpu0
+			if used > c.CPULimit || time.Since(wall0) > c.HangLimit {
+				fmt.Fprintf(os.Stderr, "WATCHDOG: case has used %.0f CPU-s (limit %.0f) in %v of wall time (backup limit %v)\n", used, c.CPULimit, time.Since(wall0).Round(time.Second), c.HangLimit)
 				buf := make([]byte, 1<<16)
 				n := runtime.Stack(buf, true)
 				os.Stderr.Write(buf[:n])
